@@ -241,6 +241,16 @@ class C10(Prop):
                 yield dict(base, reply={"status": 403, "upgrade": "websocket", "accept": "correct", "terminate": True,
                                         "sep2": sep, "reason": "101 Switching Protocols"})
 
+        def limit_and_terminator():
+            # header blocks of 16378..16390 bytes (the limit is 16384), terminated or not, delivered in two reads cut at
+            # each of the last 7 positions of the block (inside and just before the final CRLFCRLF) and just after it
+            for size in range(16378, 16391):
+                for terminate in (True, False):
+                    for back in (-2, 0, 1, 2, 3, 4, 5, 6, 7):
+                        yield dict(base, seg=["cuts", [size - back]],
+                                   reply={"status": 101, "upgrade": "websocket", "accept": "correct", "terminate": terminate,
+                                          "pad_to": size})
+
         def repeated_headers():
             # Upgrade / Sec-WebSocket-Accept sent twice, the second spelled in any casing, one of the two values wrong,
             # in both orders: never Ready
@@ -252,6 +262,7 @@ class C10(Prop):
                                                 "dups": [{"name": name, "value": wrong, "first": first}]})
         return [Enumeration("url_shapes", url_shapes, exhaustive=True),
                 Enumeration("repeated_critical_headers", repeated_headers, exhaustive=True),
+                Enumeration("header_block_at_the_limit_x_cut_in_terminator", limit_and_terminator, exhaustive=True),
                 Enumeration("malformed_status_lines", odd_status_lines, exhaustive=True),
                 Enumeration("accept_x_upgrade_x_status", accepts, exhaustive=True),
                 Enumeration("header_spellings", spellings, exhaustive=True), after_every_prelude(battery),
